@@ -45,6 +45,7 @@ class Slice:
         self.prog = prog
         self.max_depth = max_depth
         self.sources = set()
+        self.calls = []          # (body, Call) of every call whose result the slice reached
         self.visited = set()
         self.trace = []
 
@@ -156,6 +157,7 @@ class Slice:
         numeric_args = [a for a in c.args if (a[0] == "c" and _NUM.match(a[1])) or (op_place(a) is not None and is_numeric_ty(b.local_ty(op_place(a)[0])) and not op_place(a)[1])
                         or (op_place(a) is not None and op_place(a)[1] and a[1][1] and isinstance(a[1][1][-1], list) and a[1][1][-1][0] == "f" and is_numeric_ty(a[1][1][-1][5] or ""))]
         self.sources.add(("call", callee))
+        self.calls.append((b, c))
         for a in numeric_args:
             self.operand(b, a, frames)
 
@@ -185,3 +187,9 @@ def sources_of(prog, body, operand):
     s = Slice(prog)
     s.operand(body, operand, [])
     return s.sources
+
+
+def slice_of(prog, body, operand):
+    s = Slice(prog)
+    s.operand(body, operand, [])
+    return s
